@@ -67,6 +67,135 @@ def mutate_text(r, text):
     return text.replace(" ", "", 1), "drop-space"
 
 
+def single_request(toml, text):
+    return {"conf": {"toml": toml}, "inputs": [{"text": text}], "ops": [{"op": "txns"}]}
+
+
+def judge_single(run, kind, ntx, text, rr, classes, distinct):
+    """streams 1-3 and the extremes: one journal text in one session"""
+    case = {"stream": "single", "kind": kind, "ntx": ntx, "text": text}
+    st = rr.get("stage") if rr else "none"
+    run.cov["evaluations"] += 1
+    classes[(kind.split(":")[0], st)] = classes.get((kind.split(":")[0], st), 0) + 1
+    distinct.add((kind, st, ((rr or {}).get("err") or "")[:40]))
+    if st in ("panic", "abort", "timeout", "none"):
+        run.violation("loading ended in %s instead of a transaction set or an error" % st,
+                      {"input_text": text[:4000], "input_length": len(text), "kind": kind, "outcome": rr, "case": case})
+    elif kind == "valid" and st == "done":
+        got = len(rr["results"][0].get("ok") or [])
+        if got != ntx:
+            run.violation("a valid journal was loaded with a different number of transactions than it contains (partial consumption)",
+                          {"input_text": text, "expected_transactions": ntx, "loaded": got, "case": case})
+    elif kind == "junk" and st == "done":
+        run.violation("content that is not a complete transaction was accepted (text partially consumed)",
+                      {"input_text": text, "loaded_transactions": len(rr["results"][0].get("ok") or []), "case": case})
+    if len(run.cov["samples"]) < 3 and kind.startswith("mut"):
+        run.cov["samples"].append({"kind": kind, "input": text[:600], "outcome": st})
+
+
+def judge_heavy(run, name, dpt, kb, toml, classes):
+    """stream 4: a deep account name, alone in a process under a watchdog (optionally in a thread with a small stack)"""
+    text = "2024-01-01\n " + ":".join(["a"] * dpt) + "  1\n b\n"
+    rq = {"conf": {"toml": toml}, "inputs": [{"text": text}], "ops": [{"op": "txns"}]}
+    if kb is not None:
+        rq["stack_kb"] = kb
+    rr = run_one(rq, timeout=180)
+    run.cov["evaluations"] += 1
+    st = rr.get("stage")
+    classes[("heavy", st)] = classes.get(("heavy", st), 0) + 1
+    if st in ("panic", "abort", "timeout"):
+        run.violation("loading ended in %s instead of a transaction set or an error" % st,
+                      {"input": name, "outcome": rr, "case": {"stream": "heavy", "depth": dpt, "stack_kb": kb}})
+    return st
+
+
+def probe_finding(run, f, toml):
+    """open known finding account_depth_memory: its witness under its address-space limit"""
+    # memory quadratic in the number of components: the witness needs about 2.6 GiB; under a 1 GiB
+    # address-space limit the allocation failure (abort) is reached within seconds
+    dpt = int(f.get("witness_depth", 30000))
+    text = "2024-01-01\n " + ":".join(["a"] * dpt) + "  1\n b\n"
+    rr = run_one({"conf": {"toml": toml}, "inputs": [{"text": text}], "ops": [{"op": "txns"}]}, timeout=180, gib=int(f.get("witness_limit_gib", 1)))
+    if rr.get("stage") in ("abort", "panic", "timeout"):
+        run.known_finding(f["what"])
+    else:
+        run.violation("known finding %s no longer reproduces: model of the finding and implementation disagree" % f["id"],
+                      {"finding": f, "outcome": rr.get("stage"), "case": {"stream": "finding"}}, found_input=False)
+
+
+def multi_requests(toml, files):
+    """stream 5: every file alone, then all of them as one input"""
+    out = [{"conf": {"toml": toml}, "load": "paths", "inputs": [{"name": "f%d.txn" % j, "text": text}], "ops": [{"op": "txns"}]}
+           for j, text in enumerate(files)]
+    out.append({"conf": {"toml": toml}, "load": "paths", "inputs": [{"name": "f%d.txn" % j, "text": t} for j, t in enumerate(files)], "ops": [{"op": "txns"}]})
+    return out
+
+
+def judge_multi(run, mmeta, mres):
+    terms, tm = [], []
+    pos = 0
+    for k, files in mmeta:
+        singles = mres[pos:pos + k]; multi = mres[pos + k]; pos += k + 1
+        run.cov["evaluations"] += 1
+
+        def outcome(rr):
+            st = rr.get("stage")
+            if st == "done":
+                return len(rr["results"][0].get("ok") or [])
+            if st == "load":
+                return None
+            return "bad"
+        outs = [outcome(x) for x in singles] + [outcome(multi)]
+        if "bad" in outs:
+            run.violation("multi-file loading ended in panic/abort", {"files": files, "stages": [x.get("stage") for x in singles + [multi]],
+                                                                      "case": {"stream": "multi"}})
+            continue
+        terms.append("c15_case %s %s" % (g_list(["None" if o is None else "(Some %s)" % g_nat(o) for o in outs[:-1]]),
+                                          "None" if outs[-1] is None else "(Some %s)" % g_nat(outs[-1])))
+        tm.append((files, outs))
+    vals, errs = coq_eval("C15", IMPORTS, terms)
+    if errs:
+        raise Infra("coq evaluation failed: " + errs[0])
+    for (files, outs), v in zip(tm, vals):
+        bits = as_N(v)
+        if bits is None:
+            raise Infra("no result")
+        if not (bits & 2):
+            run.violation("multi-file input: an error in one file did not reject the whole input, or transactions were lost",
+                          {"files": files, "per_file_outcomes": outs[:-1], "all_files_outcome": outs[-1], "case": {"stream": "multi"}})
+        elif not (bits & 1):
+            run.violation("correspondence broken: Load.load_files differs from paths_to_txns", {"correspondence": "C15_corr.c15_case",
+                          "per_file_outcomes": outs[:-1], "all_files_outcome": outs[-1], "files": files, "case": {"stream": "multi"}}, found_input=False)
+
+
+UNREADABLE_SHAPES = ("dangling-file-link", "link-loop-dir", "dangling-link-in-subdir")
+
+
+def unreadable_request(toml, shape):
+    """stream 6: file-system storage with an entry that cannot be read"""
+    good = "2024-01-01 'g\n a  1\n b  -1\n"
+    inputs = [{"name": "txns/a.txn", "text": good}, {"name": "txns/sub/b.txn", "text": good}]
+    if shape == "dangling-file-link":
+        inputs.append({"name": "txns/bad.txn", "symlink_to": "does-not-exist.txn"})
+    elif shape == "link-loop-dir":
+        inputs.append({"name": "txns/loop", "symlink_to": "../txns"})
+    else:
+        inputs.append({"name": "txns/sub/bad.txn", "symlink_to": "../nowhere/x.txn"})
+    return {"conf": {"toml": toml}, "load": "fsdir", "fs_dir": "txns", "fs_ext": "txn", "inputs": inputs, "ops": [{"op": "txns"}]}
+
+
+def judge_unreadable(run, rq, shape, rr, classes):
+    run.cov["evaluations"] += 1
+    st = rr.get("stage")
+    classes[("unreadable", st)] = classes.get(("unreadable", st), 0) + 1
+    case = {"stream": "unreadable", "shape": shape}
+    if st == "done":
+        run.violation("file-system storage: an unreadable journal file or directory (%s) was silently skipped and a transaction set was produced from the others" % shape,
+                      {"inputs": rq["inputs"], "loaded_transactions": len(rr["results"][0].get("ok") or []), "case": case})
+    elif st in ("panic", "abort", "timeout"):
+        run.violation("loading ended in %s instead of a transaction set or an error" % st, {"inputs": rq["inputs"], "case": case})
+
+
 def main(run):
     info = proof_stage(run, "C15", extra_targets=["corr/C15_corr.vo"])
     harness_build()
@@ -111,23 +240,7 @@ def main(run):
     classes = {}
     distinct = set()
     for (kind, ntx, text), rr in zip(meta, res):
-        st = rr.get("stage") if rr else "none"
-        run.cov["evaluations"] += 1
-        classes[(kind.split(":")[0], st)] = classes.get((kind.split(":")[0], st), 0) + 1
-        distinct.add((kind, st, (rr.get("err") or "")[:40]))
-        if st in ("panic", "abort", "timeout", "none"):
-            run.violation("loading ended in %s instead of a transaction set or an error" % st,
-                          {"input_text": text[:4000], "input_length": len(text), "kind": kind, "outcome": rr})
-        elif kind == "valid" and st == "done":
-            got = len(rr["results"][0].get("ok") or [])
-            if got != ntx:
-                run.violation("a valid journal was loaded with a different number of transactions than it contains (partial consumption)",
-                              {"input_text": text, "expected_transactions": ntx, "loaded": got})
-        elif kind == "junk" and st == "done":
-            run.violation("content that is not a complete transaction was accepted (text partially consumed)",
-                          {"input_text": text, "loaded_transactions": len(rr["results"][0].get("ok") or [])})
-        if len(run.cov["samples"]) < 3 and kind.startswith("mut"):
-            run.cov["samples"].append({"kind": kind, "input": text[:600], "outcome": st})
+        judge_single(run, kind, ntx, text, rr, classes, distinct)
     # ---- stream 4: heavy inputs one per process under a watchdog (recursion depth, memory)
     heavy = []
     # F11 (repaired by a243d01): the recursive construction of account parents overflowed the stack. The regression
@@ -135,31 +248,13 @@ def main(run):
     # (on the 8 MiB main stack it needed about 28000 components and 2.5 GiB because of F24)
     depth_cases = [(2000, None), (3000, 512)] if quick else [(2000, None), (4000, None), (3000, 512), (10000, 1024)]
     for dpt, kb in depth_cases:
-        heavy.append(("deep-account-%d%s" % (dpt, "" if kb is None else "-stack%dk" % kb),
-                      "2024-01-01\n " + ":".join(["a"] * dpt) + "  1\n b\n", kb))
-    for name, text, kb in heavy:
-        rq = {"conf": {"toml": toml}, "inputs": [{"text": text}], "ops": [{"op": "txns"}]}
-        if kb is not None:
-            rq["stack_kb"] = kb
-        rr = run_one(rq, timeout=180)
-        run.cov["evaluations"] += 1
-        st = rr.get("stage")
-        classes[("heavy", st)] = classes.get(("heavy", st), 0) + 1
-        if st in ("panic", "abort", "timeout"):
-            run.violation("loading ended in %s instead of a transaction set or an error" % st, {"input": name, "outcome": rr})
+        heavy.append(("deep-account-%d%s" % (dpt, "" if kb is None else "-stack%dk" % kb), dpt, kb))
+    for name, dpt, kb in heavy:
+        judge_heavy(run, name, dpt, kb, toml, classes)
     # open known findings: replay their witnesses
     for f in findings:
         if f.get("class") == "account_depth_memory":
-            # memory quadratic in the number of components: the witness needs about 2.6 GiB; under a 1 GiB
-            # address-space limit the allocation failure (abort) is reached within seconds
-            dpt = int(f.get("witness_depth", 30000))
-            text = "2024-01-01\n " + ":".join(["a"] * dpt) + "  1\n b\n"
-            rr = run_one({"conf": {"toml": toml}, "inputs": [{"text": text}], "ops": [{"op": "txns"}]}, timeout=180, gib=int(f.get("witness_limit_gib", 1)))
-            if rr.get("stage") in ("abort", "panic", "timeout"):
-                run.known_finding(f["what"])
-            else:
-                run.violation("known finding %s no longer reproduces: model of the finding and implementation disagree" % f["id"],
-                              {"finding": f, "outcome": rr.get("stage")}, found_input=False)
+            probe_finding(run, f, toml)
     # ---- stream 5: multi-file inputs, one bad file at each position
     mreqs, mmeta = [], []
     m = 25 if quick else 300
@@ -173,66 +268,15 @@ def main(run):
             if j == bad:
                 text, _ = mutate_text(r, text)
             files.append(text)
-        for j, text in enumerate(files):
-            mreqs.append({"conf": {"toml": toml}, "load": "paths", "inputs": [{"name": "f%d.txn" % j, "text": text}], "ops": [{"op": "txns"}]})
-        mreqs.append({"conf": {"toml": toml}, "load": "paths", "inputs": [{"name": "f%d.txn" % j, "text": t} for j, t in enumerate(files)], "ops": [{"op": "txns"}]})
+        mreqs += multi_requests(toml, files)
         mmeta.append((len(files), files))
     mres = harness_run(mreqs)
-    terms, tm = [], []
-    pos = 0
-    for k, files in mmeta:
-        singles = mres[pos:pos + k]; multi = mres[pos + k]; pos += k + 1
-        run.cov["evaluations"] += 1
-
-        def outcome(rr):
-            st = rr.get("stage")
-            if st == "done":
-                return len(rr["results"][0].get("ok") or [])
-            if st == "load":
-                return None
-            return "bad"
-        outs = [outcome(x) for x in singles] + [outcome(multi)]
-        if "bad" in outs:
-            run.violation("multi-file loading ended in panic/abort", {"files": files, "stages": [x.get("stage") for x in singles + [multi]]})
-            continue
-        terms.append("c15_case %s %s" % (g_list(["None" if o is None else "(Some %s)" % g_nat(o) for o in outs[:-1]]),
-                                          "None" if outs[-1] is None else "(Some %s)" % g_nat(outs[-1])))
-        tm.append((files, outs))
-    vals, errs = coq_eval("C15", IMPORTS, terms)
-    if errs:
-        raise Infra("coq evaluation failed: " + errs[0])
-    for (files, outs), v in zip(tm, vals):
-        bits = as_N(v)
-        if bits is None:
-            raise Infra("no result")
-        if not (bits & 2):
-            run.violation("multi-file input: an error in one file did not reject the whole input, or transactions were lost",
-                          {"files": files, "per_file_outcomes": outs[:-1], "all_files_outcome": outs[-1]})
-        elif not (bits & 1):
-            run.violation("correspondence broken: Load.load_files differs from paths_to_txns", {"correspondence": "C15_corr.c15_case",
-                          "per_file_outcomes": outs[:-1], "all_files_outcome": outs[-1]}, found_input=False)
+    judge_multi(run, mmeta, mres)
     # ---- stream 6: file-system storage with an entry that cannot be read: the load must fail
-    good = "2024-01-01 'g\n a  1\n b  -1\n"
-    ureqs = []
-    for shape in ("dangling-file-link", "link-loop-dir", "dangling-link-in-subdir"):
-        inputs = [{"name": "txns/a.txn", "text": good}, {"name": "txns/sub/b.txn", "text": good}]
-        if shape == "dangling-file-link":
-            inputs.append({"name": "txns/bad.txn", "symlink_to": "does-not-exist.txn"})
-        elif shape == "link-loop-dir":
-            inputs.append({"name": "txns/loop", "symlink_to": "../txns"})
-        else:
-            inputs.append({"name": "txns/sub/bad.txn", "symlink_to": "../nowhere/x.txn"})
-        ureqs.append(({"conf": {"toml": toml}, "load": "fsdir", "fs_dir": "txns", "fs_ext": "txn", "inputs": inputs, "ops": [{"op": "txns"}]}, shape))
+    ureqs = [(unreadable_request(toml, shape), shape) for shape in UNREADABLE_SHAPES]
     ures = harness_run([u[0] for u in ureqs])
     for (rq, shape), rr in zip(ureqs, ures):
-        run.cov["evaluations"] += 1
-        st = rr.get("stage")
-        classes[("unreadable", st)] = classes.get(("unreadable", st), 0) + 1
-        if st == "done":
-            run.violation("file-system storage: an unreadable journal file or directory (%s) was silently skipped and a transaction set was produced from the others" % shape,
-                          {"inputs": rq["inputs"], "loaded_transactions": len(rr["results"][0].get("ok") or [])})
-        elif st in ("panic", "abort", "timeout"):
-            run.violation("loading ended in %s instead of a transaction set or an error" % st, {"inputs": rq["inputs"]})
+        judge_unreadable(run, rq, shape, rr, classes)
     # ---- site audit (informational): panic-capable constructs in the load path
     run.notes["panic_sites"] = panic_sites()
     run.notes["classes"] = {"%s/%s" % k: v for k, v in sorted(classes.items())}
@@ -259,6 +303,45 @@ def panic_sites():
 
 
 def replay(run, path):
-    j = json.load(open(path))
-    print(json.dumps(j, indent=1, ensure_ascii=False)[:6000])
-    return 0
+    """the stored input again, by stream: one journal text in a session / a deep account name alone in a process / the
+    witness of a known finding / a multi-file input + c15_case / an unreadable entry under file-system storage"""
+    j, rp, rc = replay_begin(run, path)
+    if rc is not None:
+        return rc
+    cs = rp.get("case") if isinstance(rp.get("case"), dict) else {}
+    stream = cs.get("stream")
+    if stream is None and isinstance(rp.get("files"), list):
+        stream = "multi"                                      # files written before the key existed carry everything needed
+    if stream is None and isinstance(rp.get("input_text"), str) and len(rp["input_text"]) == rp.get("input_length", len(rp["input_text"])) and \
+            ("expected_transactions" in rp or "loaded_transactions" in rp or "kind" in rp):
+        stream = "single"
+        cs = {"kind": rp.get("kind") or ("valid" if "expected_transactions" in rp else "junk"), "ntx": rp.get("expected_transactions"), "text": rp["input_text"]}
+    if stream not in ("single", "heavy", "finding", "multi", "unreadable"):
+        return replay_print(j)
+    print(j.get("what"))
+    harness_build()
+    toml = J.make_toml()
+    classes, distinct = {}, set()
+    if stream == "single":
+        print("input (%s, %d characters):\n%s" % (cs["kind"], len(cs["text"]), cs["text"][:3000]))
+        rr = harness_run([single_request(toml, cs["text"])], timeout=900)[0]
+        judge_single(run, cs["kind"], cs.get("ntx"), cs["text"], rr, classes, distinct)
+    elif stream == "heavy":
+        print("account name of %s components%s" % (cs["depth"], "" if cs.get("stack_kb") is None else ", thread stack %s KiB" % cs["stack_kb"]))
+        judge_heavy(run, rp.get("input"), int(cs["depth"]), cs.get("stack_kb"), toml, classes)
+    elif stream == "finding":
+        probe_finding(run, rp["finding"], toml)
+    elif stream == "multi":
+        files = list(rp["files"])
+        for k, t in enumerate(files):
+            print("file f%d.txn:\n%s" % (k, t[:1500]))
+        corr_build("C15")
+        judge_multi(run, [(len(files), files)], harness_run(multi_requests(toml, files)))
+    else:
+        shape = cs["shape"]
+        print("file-system storage with %s" % shape)
+        rq = unreadable_request(toml, shape)
+        judge_unreadable(run, rq, shape, harness_run([rq])[0], classes)
+    print("outcome now: %s" % {"%s/%s" % k: v for k, v in classes.items()})
+    return replay_verdict(run, path, j, "the stored input (%s stream) ends in a transaction set or an error as specified%s"
+                          % (stream, " and the model agrees" if stream == "multi" else ""))
